@@ -208,10 +208,22 @@ func Run(ctx *common.Ctx) int {
 	if !quick {
 		lens = append(lens, 1<<23, 1<<24, 1<<24+1, 12500000)
 	}
-	for _, l := range lens {
+	healthy := make([]byte, 8192)
+	hx := uint32(2463534242)
+	for i := range healthy {
+		hx ^= hx << 13
+		hx ^= hx >> 17
+		hx ^= hx << 5
+		healthy[i] = byte(hx >> 9)
+	}
+	for li, l := range lens {
 		for _, b := range []byte{0x00, 0xFF} {
 			var v bool
 			var err error
+			if li%2 == 0 && l <= 8192 {
+				// a healthy source was judged just before (a device that gets stuck later): nothing of that call may leak into this one
+				_, _ = detect.SingleDetect(&periodic{period: healthy}, 4096+l%4096)
+			}
 			pv := common.Catch(func() { v, err = detect.SingleDetect(&periodic{period: []byte{b}}, l) })
 			evals++
 			if pv != nil || v {
@@ -219,7 +231,7 @@ func Run(ctx *common.Ctx) int {
 			}
 		}
 	}
-	samples = append(samples, map[string]interface{}{"function": "SingleDetect", "streams": "0x00.. and 0xFF..", "lengths": "every 16..4096, 12500, 125000, and 2^k-1, 2^k, 2^k+1, 2^k(1+1/16), 2^k(1+1/3) for k=13..22 (thorough also 2^23, 2^24, 12500000)"})
+	samples = append(samples, map[string]interface{}{"function": "SingleDetect", "streams": "0x00.. and 0xFF.. (every other length preceded by a healthy request of 4096.. bytes)", "lengths": "every 16..4096, 12500, 125000, and 2^k-1, 2^k, 2^k+1, 2^k(1+1/16), 2^k(1+1/3) for k=13..22 (thorough also 2^23, 2^24, 12500000)"})
 	cov := common.Coverage{
 		"evaluations":         int(evals),
 		"distinct_nontrivial": len(streams) + 2,
